@@ -695,6 +695,40 @@ const MUTATIONS: [Mutation; 5] = [
     Mutation::WrongType,
 ];
 
+/// Numeric tokens replaced by numbers near the integer limits: the only verdict is that the parser
+/// returns (a count that large cannot be honoured, an epoch that large is just another epoch).
+fn huge_number_cases(rep: &mut Report, tokens: &Annotated, cmd: &str, corpus: &str) {
+    for pos in 0..tokens.len() {
+        if tokens[pos].0.parse::<u64>().is_err() {
+            continue;
+        }
+        for huge in ["18446744073709551615", "9223372036854775807", "4611686018427387904"] {
+            let mut argv = vec![b"UMCTL".to_vec(), cmd.as_bytes().to_vec()];
+            for (i, (t, _)) in tokens.iter().enumerate() {
+                argv.push(if i == pos { huge.as_bytes().to_vec() } else { t.clone().into_bytes() });
+            }
+            rep.evaluations += 1;
+            rep.count("huge_number_cases", 1);
+            let a2 = argv.clone();
+            let is_cluster = cmd == "SETCLUSTER";
+            let r = std::panic::catch_unwind(move || {
+                if is_cluster {
+                    parse_cluster(&a2).is_ok()
+                } else {
+                    parse_repl(&a2).is_ok()
+                }
+            });
+            if r.is_err() {
+                rep.violation(
+                    format!("C17:parser-panicked:{}:{}", cmd.to_lowercase(), tokens[pos].1),
+                    format!("{} with the {} token replaced by {} makes the parser panic instead of rejecting the message", cmd, tokens[pos].1, huge),
+                    json!({"corpus": corpus, "position": pos, "mutated": argv.iter().skip(2).map(|a| String::from_utf8_lossy(a).to_string()).collect::<Vec<_>>().join(" ")}),
+                );
+            }
+        }
+    }
+}
+
 fn negative_cluster_plain(rep: &mut Report, m: &ProxyClusterMeta, corpus: &str) {
     let tokens = annotate_cluster_plain(m);
     let want = canon_cluster(m, true);
@@ -707,6 +741,7 @@ fn negative_cluster_plain(rep: &mut Report, m: &ProxyClusterMeta, corpus: &str) 
             return;
         }
     }
+    huge_number_cases(rep, &tokens, "SETCLUSTER", corpus);
     for pos in 0..tokens.len() {
         for mu in MUTATIONS {
             if !applicable(&tokens, pos, mu) {
@@ -793,6 +828,7 @@ fn negative_cluster_compressed(rep: &mut Report, m: &ProxyClusterMeta, corpus: &
 fn negative_repl(rep: &mut Report, m: &ReplicatorMeta, corpus: &str) {
     let tokens = annotate_repl(m);
     let want = canon_repl(m);
+    huge_number_cases(rep, &tokens, "SETREPL", corpus);
     for pos in 0..tokens.len() {
         for mu in MUTATIONS {
             if !applicable(&tokens, pos, mu) {
